@@ -183,6 +183,17 @@ def body(ctx):
             specs.append(dict(seed=ctx.seed + 100 + k, maxdata=rng.choice([4096, 262144]), rid='random', frag='whole',
                               ops=[dict(api='push', size=n, src='bytesio', path='/sdcard/re%d' % k, mtime=5, cb=cb), dict(api='shell', decode=False, cmd='after', chunks=[b'ok'.hex()])]))
             labels.append('callback=%s' % cb)
+    # a directory that holds a sub-directory next to its files (push is not recursive: it may refuse, but what it does send is right)
+    for names in ([('a.txt', 10), ('m/', 0), ('z.bin', 500)], [('0dir/', 0), ('b', 10), ('c', 20)], [('a', 5), ('b', 6), ('zz/', 0)]):
+        k += 1
+        specs.append(dict(seed=ctx.seed + 200 + k, maxdata=4096, rid='plus', frag='whole', ops=[dict(api='push', src='dir', files=names, cwd='elsewhere', path='/sdcard/sub%d' % k, mtime=9)]))
+        labels.append('directory with a sub-directory')
+    # mtime 0 ("now") for every file of a directory while the clock runs during the call
+    for tick in (0.3, 2.0):
+        k += 1
+        specs.append(dict(seed=ctx.seed + 200 + k, maxdata=4096, rid='plus', frag='whole', tick=tick,
+                          ops=[dict(api='push', src='dir', files=[('a.txt', 3000), ('b.bin', 9000), ('c', 12000)], cwd='elsewhere', path='/sdcard/now%d' % k, mtime=0)]))
+        labels.append('directory, mtime=0, ticking clock')
     for cwd in ('inside', 'elsewhere', 'decoy'):
         for files in ([('a.txt', 10)], [('a.txt', 0), ('b.bin', 5000), ('c', 70000)], []):
             k += 1
